@@ -112,6 +112,10 @@ type Client struct {
 	netMachInt *NetMachInternal
 	// locks processing of the received clock updates (mutation queue)
 	lockQueue sync.Mutex
+	// clockGen counts applied clock updates (diffs and full clocks)
+	clockGen atomic.Uint64
+	// one full sync at a time
+	syncLock sync.Mutex
 	// locks calling the server
 	callLock sync.Mutex
 	rpc      atomic.Pointer[rpc2.Client]
@@ -722,24 +726,34 @@ func (c *Client) GetKind() Kind {
 // used to skip mutation syncing within a period).
 func (c *Client) Sync() am.Time {
 	c.Mach.Add1(ssC.MetricSync, nil)
+	c.syncLock.Lock()
+	defer c.syncLock.Unlock()
 
-	// call rpc
-	resp := &MsgSrvSync{}
-	ok := c.callFailsafe(c.Mach.Context(), ServerSync.Value, &MsgEmpty{}, resp)
-	if !ok {
-		return nil
+	// a diff applied while the answer was on its way is newer than the answer:
+	// ask again instead of taking the clock back
+	for i := 0; i < 5; i++ {
+		gen := c.clockGen.Load()
+
+		// call rpc
+		resp := &MsgSrvSync{}
+		ok := c.callFailsafe(c.Mach.Context(), ServerSync.Value, &MsgEmpty{}, resp)
+		if !ok {
+			return nil
+		}
+
+		// validate
+		if len(resp.Time) > 0 && len(resp.Time) != len(c.NetMach.StateNames()) {
+			AddErrRpcStr(nil, c.Mach, "wrong clock len")
+
+			return nil
+		}
+
+		// process
+		if c.clockSetGen(&gen, resp.Time, resp.QueueTick, resp.MachTick) {
+			verifPoint(c, "cli:synced")
+			break
+		}
 	}
-
-	// validate
-	if len(resp.Time) > 0 && len(resp.Time) != len(c.NetMach.StateNames()) {
-		AddErrRpcStr(nil, c.Mach, "wrong clock len")
-
-		return nil
-	}
-
-	// process
-	c.clockSet(resp.Time, resp.QueueTick, resp.MachTick)
-	verifPoint(c, "cli:synced")
 
 	return c.NetMach.machTime
 }
@@ -875,8 +889,16 @@ func (c *Client) bindRpcHandlers(conn net.Conn) *rpc2.Client {
 }
 
 func (c *Client) clockSet(mTime am.Time, qTick uint64, machTick uint32) {
+	c.clockSetGen(nil, mTime, qTick, machTick)
+}
+
+// clockSetGen sets the whole clock. With [gen] it does so only if no clock
+// update has been applied since [gen] was read, and returns false otherwise.
+func (c *Client) clockSetGen(
+	gen *uint64, mTime am.Time, qTick uint64, machTick uint32,
+) bool {
 	if c.Mach.Not1(ssC.HandshakeDone) {
-		return
+		return true
 	}
 
 	c.lockQueue.Lock()
@@ -885,8 +907,12 @@ func (c *Client) clockSet(mTime am.Time, qTick uint64, machTick uint32) {
 	// err
 	if mTime == nil {
 		// TODO log?
-		return
+		return true
 	}
+	if gen != nil && c.clockGen.Load() != *gen {
+		return false
+	}
+	c.clockGen.Add(1)
 
 	var sum uint64
 	for _, v := range mTime {
@@ -896,6 +922,8 @@ func (c *Client) clockSet(mTime am.Time, qTick uint64, machTick uint32) {
 	c.log("clockUpdate full OK t%d q%d", sum, qTick)
 	c.netMachInt.Lock()
 	c.netMachInt.UpdateClock(mTime, qTick, machTick)
+
+	return true
 }
 
 // clockUpdate tries to update the lock from a diff and returns false in case
@@ -966,6 +994,7 @@ func (c *Client) clockUpdate(update *MsgSrvUpdate, queueLocked bool) bool {
 	}
 
 	c.log("clockUpdate diff OK t%d q%d", mTime.Sum(nil), qTick)
+	c.clockGen.Add(1)
 	// will unlock itself TODO pass mutType?
 	c.netMachInt.UpdateClock(mTime, qTick, machTick)
 	verifPoint(c, "cli:applied")
@@ -1232,8 +1261,11 @@ func (c *Client) RemoteUpdate(
 		return nil
 	}
 
-	// execute or fallback
-	c.clockUpdate(update, false)
+	// execute or fallback (the blocking read loop is running this handler, so
+	// the sync call has to be made from another goroutine)
+	if !c.clockUpdate(update, false) {
+		go c.Sync()
+	}
 
 	return nil
 }
@@ -1249,9 +1281,10 @@ func (c *Client) RemoteUpdateMutations(
 		return nil
 	}
 
-	// execute or fallback
+	// execute or fallback (the blocking read loop is running this handler, so
+	// the sync call has to be made from another goroutine)
 	if !c.clockUpdateMutations(updates) {
-		c.Sync()
+		go c.Sync()
 	}
 
 	return nil
